@@ -79,3 +79,116 @@ Proof. vm_compute. repeat split; reflexivity. Qed.
 Theorem C11_decode_bounded : forall b x r, decode b = Some (x, r) -> item_bytes x + lenN r <= lenN b.
 Proof. exact decode_bounded. Qed.
 Print Assumptions C11_decode_bounded.
+
+(* ---- the Stream state machine (rlp/decode.go type Stream), code-shaped model
+   Rlp/StreamModel.v: Kind / List / ListEnd / Bytes / Raw / Uint / Bool over the Go
+   struct fields (remaining, limited, stack of listpos, cached kind/size/byteval/kinderr) ---- *)
+From AQ Require Import Rlp.StreamModel Rlp.StreamProofs.
+
+(* REFINEMENT.  The generic walker (Kind; a list is List, elements until EOL, ListEnd;
+   anything else is Bytes — decodeInterface / every hand-written DecodeRLP) over a fresh
+   Stream on the byte slice b returns the value x and leaves r in the reader exactly when
+   the specification decoder does: with the input limit set to len(b), with the limit
+   discovered from a bytes.Reader, and with no limit at all.  So every theorem above about
+   `decode` (canonical, one encoding per value, round trip, bounded) holds for the Stream API.
+   The premise concerns only the two limited modes: a limited Stream allocates a declared
+   size (checked against the limit) in one make, which Go refuses beyond max_alloc = 2^48
+   bytes.  Without a limit no premise is needed (next theorem). *)
+Theorem C11_stream_refines_decode : forall b x r, lenN b <= max_alloc ->
+  (stream_walk b (lenN b) true = Some (SOk x, r) <-> decode b = Some (x, r)) /\
+  (stream_walk b 0 true = Some (SOk x, r) <-> decode b = Some (x, r)) /\
+  (stream_walk b 0 false = Some (SOk x, r) <-> decode b = Some (x, r)).
+Proof. exact stream_refines_decode. Qed.
+Print Assumptions C11_stream_refines_decode.
+
+(* a reader of unknown length, no input limit (rlp.Decode on a file or a connection):
+   unconditional — the content buffer grows with the data that arrives (readContent) *)
+Theorem C11_stream_refines_decode_unlimited : forall b x r,
+  stream_walk b 0 false = Some (SOk x, r) <-> decode b = Some (x, r).
+Proof. exact stream_refines_decode_unlimited. Qed.
+Print Assumptions C11_stream_refines_decode_unlimited.
+
+(* total: without an input limit no operation panics, in any state satisfying the invariant,
+   whatever sizes the input declares (Uint is called with maxbits <= 64 by every caller) *)
+Theorem C11_stream_unlimited_no_panic : forall o s, Inv s -> s_lim s = false ->
+  (forall bits, o = OpUint bits -> bits <= 64) -> fst (st_op o s) <> SPanic.
+Proof. exact stream_unlimited_no_panic. Qed.
+Print Assumptions C11_stream_unlimited_no_panic.
+
+(* soundness alone needs no premise and holds for every input limit and reader kind *)
+Theorem C11_stream_walk_canonical : forall b input_limit bytes_reader x r,
+  stream_walk b input_limit bytes_reader = Some (SOk x, r) -> b = encode x ++ r /\ fits x = true.
+Proof. exact stream_walk_canonical. Qed.
+Print Assumptions C11_stream_walk_canonical.
+
+(* the same in any state (inside lists, any limit): a successful walk has consumed exactly
+   the canonical encoding of its result and advanced the list position / the limit by it *)
+Theorem C11_stream_walk_sound : forall f s x s', Inv0 s -> s_kind s = None ->
+  walk f s = Some (SOk x, s') -> reads s (encode x) s' /\ fits x = true /\ s_kind s' = None.
+Proof. exact walk_sound. Qed.
+Print Assumptions C11_stream_walk_sound.
+
+(* INVARIANT, preserved by every operation in every state (any order of calls, cached
+   kinds, sticky errors, after errors): Inv = the list stack is well formed (each pos <= size
+   < 2^64, an inner list ends inside the unread part of the outer one), a limited stream has
+   `remaining` >= everything the open lists may still read (so `remaining` never underflows),
+   and a cached size without error fits the innermost list / the limit (cache_ok). *)
+Theorem C11_stream_invariant : forall o s, Inv s -> Inv (snd (st_op o s)).
+Proof. exact stream_invariant. Qed.
+Print Assumptions C11_stream_invariant.
+
+Theorem C11_stream_invariant_initial : forall b input_limit bytes_reader, Inv (new_stream b input_limit bytes_reader).
+Proof. exact new_stream_Inv. Qed.
+Print Assumptions C11_stream_invariant_initial.
+
+(* bounded: a size that Kind() returns without error — the size Bytes()/Raw() then allocate —
+   is below 2^64 and fits what is left of the innermost open list, or of the input limit at
+   top level (`within`; nothing is known only for a toplevel value of an unlimited stream) *)
+Theorem C11_stream_kind_bounded : forall s k n s1, Inv s -> st_kind s = (SOk (k, n), s1) ->
+  n < two64 /\ within n s1 /\ Inv s1.
+Proof. exact stream_kind_bounded. Qed.
+Print Assumptions C11_stream_kind_bounded.
+
+(* Uint (maxbits 8..64) returns item_to_uint of the next value, which is a canonically
+   encoded string, and consumes exactly its encoding.
+   _partial: the converse (if the next value x has item_to_uint bits x = Some v then Uint
+   returns v; and which error is returned otherwise) is not proved; it is covered by the
+   operation-sequence correspondence Stream.ops~StreamModel.st_op only. *)
+Theorem C11_stream_uint_partial : forall bits s v s', Inv0 s -> s_kind s = None -> 8 <= bits <= 64 ->
+  st_uint bits s = (SOk v, s') ->
+  exists x, reads s (encode x) s' /\ item_to_uint bits x = Some v /\ fits x = true /\ s_kind s' = None.
+Proof. exact stream_uint_sound. Qed.
+Print Assumptions C11_stream_uint_partial.
+
+(* Raw returns exactly the bytes it consumed (header ++ content) ... *)
+Theorem C11_stream_raw : forall s raw s', Inv0 s -> s_kind s = None -> st_raw s = (SOk raw, s') ->
+  reads s raw s' /\ s_kind s' = None.
+Proof. exact stream_raw_exact. Qed.
+Print Assumptions C11_stream_raw.
+(* ... and they are the canonical encoding of the value the walker yields there.  (Raw by
+   itself does not validate: it accepts the non-canonical 0x81 0x05 and unparsed list
+   content — C11_stream_raw_noncanonical_example below; RawValue fields keep bytes as they are.) *)
+Theorem C11_stream_raw_is_encode : forall f s raw s' x s'', Inv0 s -> s_kind s = None ->
+  st_raw s = (SOk raw, s') -> walk f s = Some (SOk x, s'') -> raw = encode x.
+Proof. exact stream_raw_is_encode. Qed.
+Print Assumptions C11_stream_raw_is_encode.
+
+(* non-vacuity: a nested value with a 56-byte string is walked from a limited and from an
+   unlimited Stream, leaving the trailing byte; an operation sequence in a wrong order hits
+   the sticky/internal errors; Raw on 0x8105 succeeds although the walker rejects it *)
+Example C11_stream_example :
+  let x := Lst [Str []; Str [x7f]; Lst [Str (repeat x01 56); Lst []]; Str [x80]] in
+  let b := encode x ++ [xc0] in
+  stream_walk b (lenN b) true = Some (SOk x, [xc0]) /\
+  stream_walk b 0 false = Some (SOk x, [xc0]) /\
+  Inv (new_stream b 0 true) /\
+  fst (st_list_end (new_stream b 0 true)) = SErr ENotInList /\
+  fst (st_bytes (new_stream b 0 true)) = SErr EExpectedString /\
+  fst (st_uint 64 (new_stream [x82; x00; x01] 0 true)) = SErr ECanonInt.
+Proof. vm_compute. repeat split; try reflexivity; intros; discriminate. Qed.
+
+Example C11_stream_raw_noncanonical_example :
+  fst (st_raw (new_stream [x81; x05] 0 true)) = SOk [x81; x05] /\
+  stream_walk [x81; x05] 0 true = Some (SErr ECanonSize, []) /\
+  decode [x81; x05] = None.
+Proof. vm_compute. repeat split; reflexivity. Qed.
